@@ -114,6 +114,7 @@ def cases(tier):
             # the same atoms with label ids that differ from the author ids (two-character label_asym_id, own label_seq_id): only the author ids are written to PDB
             yield dict(nch=nch, idlen=idlen, resmode=resmode, serial0=serial0, icodes=icodes, models=models, apr=apr, extras=extras, fmt="mmCIF", labels=True)
     yield dict(special="pdb-blank-chain-segid", fmt="PDB")
+    yield dict(special="missing-chain-id", fmt="mmCIF")
     yield dict(big="chain-10000-residues", fmt="mmCIF")
     yield dict(big="chain-10002-residues-with-icodes", fmt="mmCIF")
     if tier != "quick":
@@ -239,7 +240,7 @@ def big_table(kind):
 
 
 def ref_fits(t):
-    return all(a["serial"] <= 99999 and len(a["chain"]) == 1 and a["resseq"] <= 9999 for a in t)
+    return all(a["serial"] <= 99999 and a["chain"] is not None and len(a["chain"]) == 1 and a["resseq"] <= 9999 for a in t)
 
 
 def ref_feasible(t):
@@ -286,6 +287,14 @@ def run_case(case):
             a["segid"] = "RNA" + a["chain"]
             a["resseq"] += 10 * (a["chain"] != "A")
             a["chain"] = " "
+    elif case.get("special") == "missing-chain-id":
+        # three chains of which the middle one has no author chain identifier (auth_asym_id '?'), next to a two-character one: a renaming is needed, and the
+        # atoms without identifier are one chain of their own
+        t = make_table(3, 2, "small", 1, False, 1, 2)
+        mid = sorted({a["chain"] for a in t})[1]
+        for a in t:
+            if a["chain"] == mid:
+                a["chain"] = None
     elif "big" in case:
         t = big_table(case["big"])
     elif "composite" in case:
